@@ -557,6 +557,41 @@ func fullPathStress(res *Result, r *Rng, rounds int) {
 			return
 		}
 	}
+	// stop storm: several goroutines stop the cleaner over and over while others keep using the cache (overlapping stops with a
+	// restart between them); at the quiescent point behind it, after one more cached compilation, exactly one cleaner is alive
+	storms := 2 + rounds/40
+	if storms > 12 {
+		storms = 12
+	}
+	for storm := 0; storm < storms; storm++ {
+		until := time.Now().Add(60 * time.Millisecond)
+		var wg sync.WaitGroup
+		for g := 0; g < 4; g++ {
+			wg.Add(1)
+			go func(g int) {
+				defer wg.Done()
+				for time.Now().Before(until) {
+					if g < 2 {
+						mjml.StopASTCacheCleanup()
+					} else {
+						mjml.Render(docs[g-2], mjml.WithCache())
+					}
+				}
+			}(g)
+		}
+		wg.Wait()
+		mjml.Render(docs[0], mjml.WithCache())
+		limit := time.Now().Add(2 * time.Second)
+		for spawned.Load()-exited.Load() > 1 && time.Now().Before(limit) {
+			time.Sleep(time.Millisecond)
+		}
+		res.Case(fmt.Sprintf("stop-storm-%d", storm), true)
+		if live := spawned.Load() - exited.Load(); live != 1 {
+			res.Violate(Violation{Sig: "cleaners-alive-after-stop-storm", Kind: "schedule", What: fmt.Sprintf("two goroutines stopping the cleaner while two use the cache; behind it, after one more cached compilation, %d cleanup goroutines are alive (want exactly 1)", live),
+				Input: map[string]interface{}{"storm": storm}})
+			break
+		}
+	}
 	mjml.StopASTCacheCleanup()
 	deadline := time.Now().Add(2 * time.Second)
 	for exited.Load() < spawned.Load() && time.Now().Before(deadline) {
